@@ -795,6 +795,16 @@ def multi_library(rep, never, d, st, nlib=14):
         for j in range(nlib):
             body.append("print(which%d(%d));" % (j, rnd + 1))
             want.append(str(1000 * (j + 1) + (j % 7) * 100 + rnd + 1))
+    # the SAME symbol name taken from different libraries (local extern declarations), called alternately and in runs: a call
+    # must reach the library its own declaration names, whatever was resolved just before
+    nsame = min(4, nlib)
+    for k in range(nsame):
+        lines.append('func same%d(x : int) -> int { let f = let extern "%s" func which0(x : int) -> int; f(x) }' % (k, libs[k]))
+    order = [0, 0, 1, 1, 0, 2, 1, 3, 3, 0, 2, 2, 1, 0]
+    for i, k in enumerate(order):
+        k = k % nsame
+        body.append("print(same%d(%d));" % (k, i))
+        want.append(str(1000 * (k + 1) + i))
     prog = "\n".join(lines) + "\nfunc main() -> int\n{\n    " + "\n    ".join(body) + "\n    0\n}\n"
     p = os.path.join(d, "multi.nev")
     open(p, "w").write(prog)
